@@ -19,7 +19,7 @@ func init() {
 	Register("C15", &Info{
 		Run:   runC15,
 		Quick: 4500, Thor: 600000,
-		Rule: "a world = one ECH-capable fingerprint (parrots whose spec carries an ECH extension, HelloGolang, generated specs with an ECH extension) with Config.EncryptedClientHelloConfigList built by the harness (drawn config id, KDF/AEAD suite list, maximum_name_length, public name) (alone, followed by further configs, or behind an entry of an unknown version); the parrot shapes are also applied as custom specs with the server name pre-filled into the SNI extension; against the repository's or the std library's ECH-capable server that accepts (holds the key), accepts after a forced HelloRetryRequest, or rejects (holds another key and advertises retry configs), also after a forced HelloRetryRequest; a third of the parrot worlds call BuildHandshakeState (optionally BuildHandshakeStateWithoutSession first) before Handshake, so the hello is marshaled and the inner hello sealed more than once; oracle: the secret name never appears in the client's plaintext flight, the outer SNI is the public name, on acceptance both sides report ECHAccepted and the secret name, data echoes and HandshakeState.Hello.Raw is the last outer hello on the wire, on rejection the client returns ECHRejectionError carrying exactly the server's retry config list after verifying the certificate against the public name; non-trivial = an encrypted_client_hello extension of type outer with the drawn config id on the wire; distinct = (fingerprint, config, server behaviour, peer)",
+		Rule: "a world = one ECH-capable fingerprint (parrots whose spec carries an ECH extension, HelloGolang, generated specs with an ECH extension) with Config.EncryptedClientHelloConfigList built by the harness (drawn config id, KDF/AEAD suite list, maximum_name_length, public name) (alone, followed by further configs, or behind an entry of an unknown version); the parrot shapes are also applied as custom specs with the server name pre-filled into the SNI extension; against the repository's or the std library's ECH-capable server that accepts (holds the key), accepts after a forced HelloRetryRequest, or rejects (holds another key and advertises retry configs), also after a forced HelloRetryRequest; half of the accepting HelloGolang worlds are the second connection of a history over a session cache (its inner hello then carries a real pre_shared_key, also across a HelloRetryRequest); a third of the parrot worlds call BuildHandshakeState (optionally BuildHandshakeStateWithoutSession first) before Handshake, so the hello is marshaled and the inner hello sealed more than once; oracle: the secret name never appears in the client's plaintext flight, the outer SNI is the public name, on acceptance both sides report ECHAccepted and the secret name, data echoes and HandshakeState.Hello.Raw is the last outer hello on the wire, on rejection the client returns ECHRejectionError carrying exactly the server's retry config list after verifying the certificate against the public name; non-trivial = an encrypted_client_hello extension of type outer with the drawn config id on the wire; distinct = (fingerprint, config, server behaviour, peer)",
 		Assumptions: []string{"ECHConfig encoding (draft-ietf-tls-esni-18 / RFC 9849 version 0xfe0d, DHKEM(X25519, HKDF-SHA256)) is produced by the harness; both servers decode it independently"},
 		Real:        []string{"utls client ECH path from /repo", "utls or std server with ECH keys"},
 		Stub:        []string{"transport, clock, crypto/rand"},
@@ -156,6 +156,19 @@ func runC15(c *Ctx) {
 	c.R.Class = fmt.Sprintf("%s %s peer=%s cid=%d suites=%v maxname=%d cert=%s list=%d prefilled=%v prebuild=%d", idi.Name, behaviour, peerName(peer), cid, suites, maxName, certName, listKind, prefilled, prebuild)
 	sp := &ConnSpec{ID: idi.ID, Spec: custom, CCfg: ccfg, Peer: peer, SCfg: scfg, StdCfg: stdcfg, Payload: [][]byte{[]byte("ping-ech")},
 		Setup: func(l *simnet.Link) { l.Frag = ch.Bool(30, "frag") }}
+	// HelloGolang keeps a real pre_shared_key in its inner hello: the connection under test may be
+	// the second one of a history (accepted ECH both times), also with a HelloRetryRequest on it
+	if idi.ID == tls.HelloGolang && !rejecting && ch.Bool(50, "ech-resumption") {
+		ccfg.ClientSessionCache = tls.NewLRUClientSessionCache(4)
+		savedU, savedS := scfg.CurvePreferences, stdcfg.CurvePreferences
+		scfg.CurvePreferences, stdcfg.CurvePreferences = nil, nil
+		o1 := RunConn(c, w, &ConnSpec{Name: "first", ID: idi.ID, CCfg: ccfg, Peer: peer, SCfg: scfg, StdCfg: stdcfg, Payload: [][]byte{[]byte("first")}})
+		scfg.CurvePreferences, stdcfg.CurvePreferences = savedU, savedS
+		if o1.CDone && string(o1.CRead) == "first" {
+			c.R.Class += " second-of-history"
+			c.Probe("ech-second-connection-with-cached-session")
+		}
+	}
 	if prebuild > 0 && idi.ID != tls.HelloGolang {
 		sp.Prep = func(u *tls.UConn) error {
 			if prebuild == 2 {
@@ -239,6 +252,9 @@ func runC15(c *Ctx) {
 		}
 		if string(o.CRead) != "ping-ech" {
 			c.Violate("ech-echo-failed "+idKind(idi), "%s: %s", c.R.Class, o.Describe())
+		}
+		if o.CState.DidResume {
+			c.Probe(fmt.Sprintf("ech-resumed-hrr=%v", hrrSeen))
 		}
 		// the hello the caller can inspect afterwards is the one that went out (the outer hello, the
 		// second one after a HelloRetryRequest) - not the inner hello the handshake continued with
